@@ -12,15 +12,28 @@
 
    Bound to the code by hook H10 (TraceVlePure.tla replays every recorded call as a behaviour of this module). *)
 EXTENDS Naturals, TLC
-CONSTANTS MaxIterChoices    \* possible values of options.max_iter (default 50)
-VARIABLES pc,        \* where the code is
-          spec,      \* "T" | "p"
-          given,     \* an initial state was supplied
-          stage,     \* "none" | "given" | "idealgas" | "spinodal" | "init_p"
-          conv, trivial,
-          i,         \* iterations started in this attempt
-          maxit,
-          result     \* "none" | "Ok" | "TrivialSolution" | "NotConverged" | "IterationFailed" | "Error"
+CONSTANTS
+  \* @type: Set(Int);
+  MaxIterChoices    \* possible values of options.max_iter (default 50)
+VARIABLES
+  \* @type: Str;
+  pc,        \* where the code is
+  \* @type: Str;
+  spec,      \* "T" | "p"
+  \* @type: Bool;
+  given,     \* an initial state was supplied
+  \* @type: Str;
+  stage,     \* "none" | "given" | "idealgas" | "spinodal" | "init_p"
+  \* @type: Bool;
+  conv,
+  \* @type: Bool;
+  trivial,
+  \* @type: Int;
+  i,         \* iterations started in this attempt
+  \* @type: Int;
+  maxit,
+  \* @type: Str;
+  result     \* "none" | "Ok" | "TrivialSolution" | "NotConverged" | "IterationFailed" | "Error"
 vars == <<pc, spec, given, stage, conv, trivial, i, maxit, result>>
 MaxOf(S) == CHOOSE m \in S : \A k \in S : k <= m
 
@@ -101,4 +114,22 @@ CascadeOrder == /\ (stage = "given" => given)
 ErrorOnlyFromLastStage == (spec = "T" /\ pc = "done" /\ result # "Ok") => stage = "spinodal"
 Bounded == i <= maxit
 Terminates == <>(pc = "done")
+
+\* ---- unbounded: an inductive invariant for ANY max_iter (checked by Apalache, see ApaVlePure.tla)
+IndInv ==
+  /\ pc \in {"start", "init", "loop", "step", "init_p", "loop_p", "step_p", "done"}
+  /\ spec \in {"T", "p"} /\ given \in BOOLEAN /\ stage \in {"none", "given", "idealgas", "spinodal", "init_p"}
+  /\ conv \in BOOLEAN /\ trivial \in BOOLEAN /\ i \in Nat /\ maxit \in Nat
+  /\ result \in {"none", "Ok", "TrivialSolution", "NotConverged", "IterationFailed", "Error"}
+  /\ (result # "none" => pc = "done")
+  /\ (pc = "start" => stage = "none")
+  /\ (result = "Ok" => conv /\ ~trivial /\ i >= 1)
+  /\ (result = "NotConverged" => ~conv /\ i = maxit)
+  /\ (stage = "given" => given)
+  /\ (pc \in {"init", "loop", "step"} => spec = "T" /\ stage \in {"given", "idealgas", "spinodal"})
+  /\ (pc \in {"init_p", "loop_p", "step_p"} => spec = "p" /\ stage \in {"given", "init_p"})
+  /\ ((spec = "T" /\ pc = "done" /\ result # "Ok") => stage = "spinodal")
+  /\ (pc \in {"loop", "loop_p"} => ~conv /\ i <= maxit)
+  /\ (pc \in {"step", "step_p"} => ~conv /\ i >= 1 /\ i <= maxit)
+IndInit == IndInv
 ================================================================================
